@@ -87,13 +87,17 @@ def cases(tier, seed):
         out.append({"id": "ms1-%d" % i, "kind": "ms1", "m": m, "x": x, "nmed": float(rng.uniform(1.0, 1.6)), "wl": float(rng.uniform(0.4, 0.8)),
                     "meth": i % 2, "tight": bool((i // 2) % 2), "as_cluster": bool((i // 4) % 2), "pol_angle": float(rng.uniform(0, 2 * math.pi)),
                     "seed": [seed, "ms1", i], "cost": 3})
+    # one-sphere clusters whose size parameter is a multiple of pi (a radius of a whole number of half wavelengths: F143)
+    for i in range(6 if tier == "quick" else 24):
+        out.append({"id": "ms1-pi-%d" % i, "kind": "ms1", "m": _gen_m(rng, i), "x": (1 + i % 6) * math.pi, "nmed": [1.0, 1.33][i % 2], "wl": [1.0, 0.665][i % 2],
+                    "meth": i % 2, "tight": True, "as_cluster": bool(i % 3), "pol_angle": float(rng.uniform(0, 2 * math.pi)), "seed": [seed, "ms1pi", i], "cost": 3})
     for i, xx in enumerate([30.0, 40.0] if tier == "quick" else [26.0, 30.0, 40.0, 60.0, 100.0]):
         out.append({"id": "ms1-large-%d" % i, "kind": "ms1", "m": [1.2, 0.0], "x": xx, "nmed": 1.0, "wl": 0.6, "meth": 1, "tight": True, "as_cluster": True,
                     "pol_angle": 0.4, "seed": [seed, "ms1large", i], "cost": 40})
     # layered spheres one of whose layer boundaries puts m_l x_l next to a zero of a Riccati-Bessel function psi_n (where the product
     # recursion for psi_n xi_n used to lose digits for all higher orders, F69), judged against the arbitrary-precision series
     for i in range(12 if tier == "quick" else 300):
-        out.append({"id": "layacc-%d" % i, "kind": "layacc", "nlayers": 2 + i % 3, "order": 1 + i % 5, "delta": [1e-5, 1e-7, 1e-6, 1e-9][i % 4] * (-1) ** (i // 4),
+        out.append({"id": "layacc-%d" % i, "kind": "layacc", "nlayers": 2 + i % 3, "order": (1 + i % 5) if i % 6 else 0, "delta": ([1e-5, 1e-7, 1e-6, 1e-9][i % 4] * (-1) ** (i // 4)) if i % 6 else [0.0, 1e-13][(i // 6) % 2],      # (order 0: m_l x_l on a multiple of pi, F144)
                     "seed": [seed, "layacc", i], "cost": 6})
     nl = 100 if tier == "quick" else 5000
     for i in range(nl):
@@ -284,6 +288,8 @@ def _run_layacc(case):
     grid = np.linspace(3.0, 14.0, 2000)
     v = spherical_jn(n0, grid)
     zs = [brentq(lambda t: spherical_jn(n0, t), grid[j], grid[j + 1]) for j in range(len(grid) - 1) if v[j] * v[j + 1] < 0]
+    if n0 == 0:
+        zs = [q * math.pi for q in range(1, 5)]           # exact doubles nearest to multiples of pi
     z0 = zs[int(rng.integers(0, len(zs)))]
     ms = [float(rng.uniform(1.05, 2.0)) for _ in range(nl)]
     j = int(rng.integers(0, nl))                       # the layer whose outer boundary sits on the zero
